@@ -5,6 +5,8 @@ package pbft
 // (fatal context: a panic kills the node) on an ARBITRARY decoded message.
 
 import (
+	"time"
+
 	"github.com/dappledger/AnnChain/gemmill/go-wire"
 	gcmn "github.com/dappledger/AnnChain/gemmill/modules/go-common"
 	"github.com/dappledger/AnnChain/gemmill/p2p"
@@ -315,4 +317,47 @@ func VerifHarness_C08_catchup_round_quota() {
 	vAssert(len(cs.Votes.roundVoteSets) <= base+2, "one-peer-opens-at-most-two-catch-up-rounds")
 	vAssert(len(cs.Votes.peerCatchupRounds[peer.Key]) <= 2, "catch-up-quota-recorded-per-peer")
 	vC08MoveOn(h)
+}
+
+// A burst of peer messages fills the consensus queue. Receive may then wait for the consensus
+// routine to make room — but not while holding the state mutex: the routine needs that mutex for
+// every item it takes, so the two would wait for each other for ever. Under the engine a send on
+// the full queue ends the path as "blocked" when no mutex is held and as a deadlock finding
+// otherwise; natively a consumer goroutine that does what receiveRoutine does (take the mutex, then
+// an item) runs beside Receive, and Receive must return.
+func VerifHarness_C08_receive_on_full_queue() {
+	n := vParam("N", 3)
+	h := vNewCS(n, 5, -1)
+	cs := h.cs
+	cs.Step = RoundStepPrevote
+	cs.Votes.SetRound(1)
+	cs.peerMsgQueue = make(chan msgInfo, 1)
+	cs.peerMsgQueue <- msgInfo{&VoteMessage{vVote(2, cs.Height, 0, types.VoteTypePrevote, types.BlockID{}, true, 1)}, "peer-0"}
+	conR := vC08Reactor(cs)
+	peer, _ := vC08Peer()
+	kind := vNondetLen("message", 0, 2)
+	var ch byte
+	var bz []byte
+	switch kind {
+	case 0:
+		ch, bz = VoteChannel, vC08Wire(&VoteMessage{vVote(0, cs.Height, 0, types.VoteTypePrevote, types.BlockID{}, true, 2)}, msgTypeVote)
+	case 1:
+		p := types.NewProposal(cs.Height, 0, types.PartSetHeader{Total: 1, Hash: []byte{0xA}}, -1, types.BlockID{})
+		p.Signature = vSign(0, types.SignBytes(vChain, p), true, 9)
+		ch, bz = DataChannel, vC08Wire(&ProposalMessage{p}, msgTypeProposal)
+	default:
+		ch, bz = DataChannel, vC08Wire(&BlockPartMessage{Height: cs.Height, Round: 0, Part: &types.Part{Index: 0, Bytes: []byte{1}}}, msgTypeBlockPart)
+	}
+	if !vSymbolic() {
+		go func() {
+			time.Sleep(100 * time.Millisecond)
+			cs.mtx.Lock() // what receiveRoutine does for every item it handles
+			cs.mtx.Unlock()
+			<-cs.peerMsgQueue
+		}()
+	}
+	vReach("queue-full-message-arrives")
+	conR.Receive(ch, peer, bz) // must get through once the consumer has made room
+	vReach("received-despite-the-full-queue")
+	vAssert(len(cs.peerMsgQueue) == 1, "message-queued-after-the-consumer-made-room")
 }
